@@ -2,20 +2,27 @@
 //
 // Real handshakes over loopback TCP between a uTLS client (38 parrots, reproducible randomized fingerprints,
 // fingerprinted copies of their own ClientHello, custom specs) and the library's own server configured with ONE
-// choice at a time out of (what this very hello offers) /\ (what utls implements): MaxVersion 1.2 / 1.3; each
-// offered+implemented group alone in CurvePreferences (a share the hello sent: direct; otherwise the server sends
-// a HelloRetryRequest); each offered TLS 1.3 suite; each offered TLS 1.2 suite the certificates can serve alone in
-// CipherSuites; ALPN preferences h2 / http/1.1 / none; ECDSA / RSA / Ed25519 leaf alone; each advertised
-// certificate-compression algorithm; for the *_PSK parrots a resumption attempt answered by a HelloRetryRequest.
-// Application data is echoed both ways.
-//   - Go-side oracle (property text): the server answered the hello (it did not reject the offer) and the client
-//     did not complete / the echo failed  ->  failure `<kind>/<class>`;
+// choice at a time out of (what this very WIRE hello offers) /\ (what utls implements):
+//   - each advertised protocol version as the server's maximum (TLS 1.0 / 1.1 / 1.2 / 1.3);
+//   - each offered+implemented group alone in CurvePreferences: a share the hello sent (direct) or a
+//     HelloRetryRequest, the HRR groups crossed with EVERY TLS 1.3 suite the hello offers;
+//   - each offered TLS 1.3 suite; each offered implemented legacy suite alone at each advertised version <= 1.2
+//     (AEAD, CBC, RC4, 3DES: RSA and ECDSA leaves);
+//   - each protocol of the wire hello's ALPN list alone (and none), under different client Configs: NextProtos
+//     unset, preset by the caller to a disjoint / an overlapping list, and a *Config shared with an earlier UConn
+//     of a parrot whose ALPN list differs;
+//   - ECDSA / RSA / Ed25519 leaf alone (when signature_algorithms offers a usable scheme); each advertised
+//     certificate-compression algorithm; for the *_PSK parrots a resumption attempt answered by a HelloRetryRequest.
+// After every handshake the client performs Writes of 1, 2, 17, 16384 and 20000 bytes, the server echoes them.
+//   - Go-side oracle (property text): the server answered the hello and the client did not complete -> `<kind>/<class>`;
+//     a Write that does not report (len(b), nil) -> `app-write/<class>`; the echo differs -> `app-echo/<class>`;
 //   - CInst: the premises of C10_holds_if (spec_ok) on the class's real view, retained keys and wire hello;
-//   - CRun / CRunX: the flight a compliant server sends for that configuration, and the observed client decision
-//     against Model/Complete.v client_run10.
+//   - CRun / CRunX: the flight a compliant server sends for that configuration and the observed client decision
+//     against Model/Complete.v client_run10; CWrite: UConn.Write's reported count against the model.
 package main
 
 import (
+	"crypto/ecdh"
 	"crypto/ed25519"
 	"crypto/rand"
 	"crypto/x509"
@@ -28,8 +35,6 @@ import (
 	"strings"
 	"sync"
 	"time"
-
-	"crypto/ecdh"
 
 	tls "github.com/refraction-networking/utls"
 	"verif/harness/hs"
@@ -46,13 +51,16 @@ type class struct {
 }
 
 type scenario struct {
-	kind    string // version12 | version13 | first-share | second-share | hrr | hrr-hybrid | suite13 | suite12 | alpn | cert-ecdsa | cert-rsa | cert-ed25519 | certcomp | psk-hrr
+	kind    string // version10..13 | first-share | second-share | hrr | hrr-hybrid | suite13 | suite10..12 | alpn | cert-* | certcomp | psk-hrr
 	detail  string
-	cfg     func(*tls.Config)
-	script  func(*tls.VerifServerScript)
-	alpn    []string
-	psk     bool // resumption attempt: a first full handshake fills the session cache
-	exclude bool // one of the two classes C10_holds_if excludes (the client is expected to abort: a finding)
+	cfg     func(*tls.Config)            // server Config
+	script  func(*tls.VerifServerScript) // scripted selections (all from the offered sets)
+	ccfg    func(*tls.Config)            // client Config variation
+	pre     *class                       // an earlier UConn of this class uses the same *Config first
+	alpn    []string                     // server NextProtos
+	psk     bool                         // resumption attempt: a first full handshake fills the session cache
+	exclude bool                         // one of the two classes C10_holds_if excludes (a finding)
+	must    bool                         // always part of the quick tier
 }
 
 var edCert *tls.Certificate
@@ -72,122 +80,58 @@ func ed25519Leaf(p *hs.PKI) tls.Certificate {
 
 var real13 = []uint16{tls.TLS_AES_128_GCM_SHA256, tls.TLS_AES_256_GCM_SHA384, tls.TLS_CHACHA20_POLY1305_SHA256}
 var serverGroups = []uint16{29, 23, 24, 25, 4588}
+var allVersions = []uint16{tls.VersionTLS13, tls.VersionTLS12, tls.VersionTLS11, tls.VersionTLS10}
+var versName = map[uint16]string{tls.VersionTLS10: "10", tls.VersionTLS11: "11", tls.VersionTLS12: "12", tls.VersionTLS13: "13"}
 
 func offers13(w *hs.WireHello) bool { return hs.ContainsU16(w.SupportedVersions, tls.VersionTLS13) }
 
-// suites of TLS <= 1.2 the library's server can serve with the harness certificates
-func suites12(w *hs.WireHello) []uint16 {
-	impl := map[uint16]bool{}
-	for _, id := range hs.AllSuites12() {
-		impl[id] = true
-	}
+// advertised: the versions the wire hello offers (Model/Negotiate.v [advertised]).
+func advertised(w *hs.WireHello, specmin uint16) []uint16 {
 	var out []uint16
-	for _, id := range w.CipherSuites {
-		if impl[id] {
-			out = append(out, id)
+	for _, v := range allVersions {
+		if w.HasSupportedVers {
+			if hs.ContainsU16(w.SupportedVersions, v) {
+				out = append(out, v)
+			}
+		} else if specmin <= v && v <= w.LegacyVersion {
+			out = append(out, v)
 		}
 	}
 	return out
 }
 
-func scenarios(p *hs.PKI, w *hs.WireHello, pskParrot bool) []scenario {
-	var sc []scenario
-	v13 := offers13(w)
-	both := []string{"h2", "http/1.1"}
-	sc = append(sc, scenario{kind: "version12", detail: "max1.2", alpn: both, cfg: func(c *tls.Config) { c.MaxVersion = tls.VersionTLS12 }})
-	if v13 {
-		sc = append(sc, scenario{kind: "version13", detail: "max1.3", alpn: both})
-		for _, g := range serverGroups {
-			g := g
-			if !hs.ContainsU16(w.SupportedGroups, g) {
-				continue
-			}
-			kind := "hrr"
-			excl := false
-			idx := -1
-			for i, s := range w.KeyShareGroups {
-				if s == g {
-					idx = i
-				}
-			}
-			first := true
-			for i, s := range w.KeyShareGroups {
-				if !hs.IsGREASE(s) && i < idx {
-					first = false
-				}
-			}
-			switch {
-			case idx >= 0 && first:
-				kind = "first-share"
-			case idx >= 0:
-				kind = "second-share"
-			case g == 4588:
-				kind, excl = "hrr-hybrid", true
-			}
-			var scr func(*tls.VerifServerScript)
-			if idx < 0 {
-				// no share for g: the server's HelloRetryRequest (same message the library's own server sends), through the
-				// scripted path so that the trace records it
-				scr = func(s *tls.VerifServerScript) { s.HRRGroup = tls.CurveID(g) }
-			}
-			sc = append(sc, scenario{kind: kind, detail: fmt.Sprint(g), alpn: both, exclude: excl, script: scr, cfg: func(c *tls.Config) { c.CurvePreferences = []tls.CurveID{tls.CurveID(g)} }})
-		}
-		for _, s := range real13 {
-			s := s
-			if hs.ContainsU16(w.CipherSuites, s) {
-				sc = append(sc, scenario{kind: "suite13", detail: fmt.Sprintf("0x%04x", s), alpn: both, script: func(sc *tls.VerifServerScript) { sc.Suite = s }})
+// legacy suites the library implements, with the versions each is valid at
+var (
+	suiteVersOnce sync.Once
+	suiteVers     map[uint16][]uint16
+	suiteNames    map[uint16]string
+)
+
+func legacySuites() (map[uint16][]uint16, map[uint16]string) {
+	suiteVersOnce.Do(func() {
+		suiteVers, suiteNames = map[uint16][]uint16{}, map[uint16]string{}
+		for _, l := range [][]*tls.CipherSuite{tls.CipherSuites(), tls.InsecureCipherSuites()} {
+			for _, s := range l {
+				suiteVers[s.ID] = s.SupportedVersions
+				suiteNames[s.ID] = s.Name
 			}
 		}
-		for _, a := range w.CertCompressionAlgs {
-			a := a
-			if a >= 1 && a <= 3 {
-				sc = append(sc, scenario{kind: "certcomp", detail: fmt.Sprint(a), alpn: both, script: func(sc *tls.VerifServerScript) { sc.CertCompression = a }})
-			}
-		}
+	})
+	return suiteVers, suiteNames
+}
+
+// suiteClass: the record protection family of a cipher suite
+func suiteClass(id uint16) string {
+	_, names := legacySuites()
+	n := names[id]
+	switch {
+	case strings.Contains(n, "RC4"):
+		return "rc4"
+	case strings.Contains(n, "CBC"):
+		return "cbc"
+	default:
+		return "aead"
 	}
-	for _, s := range suites12(w) {
-		s := s
-		sc = append(sc, scenario{kind: "suite12", detail: fmt.Sprintf("0x%04x", s), alpn: both, cfg: func(c *tls.Config) {
-			c.MaxVersion = tls.VersionTLS12
-			c.CipherSuites = []uint16{s}
-		}})
-	}
-	for _, a := range [][]string{{"h2"}, {"http/1.1"}, nil} {
-		a := a
-		sc = append(sc, scenario{kind: "alpn", detail: strings.Join(a, ","), alpn: a})
-	}
-	ed := ed25519Leaf(p)
-	for _, ct := range []struct {
-		name string
-		cert tls.Certificate
-	}{{"cert-ecdsa", p.ECDSA}, {"cert-rsa", p.RSA}, {"cert-ed25519", ed}} {
-		ct := ct
-		for _, mv := range []uint16{tls.VersionTLS13, tls.VersionTLS12} {
-			mv := mv
-			if mv == tls.VersionTLS13 && !v13 {
-				continue
-			}
-			if !sigOffered(w, ct.name, mv) {
-				continue // the hello does not offer a signature algorithm this certificate can use: not an offered choice
-			}
-			sc = append(sc, scenario{kind: ct.name, detail: fmt.Sprintf("max%x", mv), alpn: both, cfg: func(c *tls.Config) {
-				c.Certificates = []tls.Certificate{ct.cert}
-				c.MaxVersion = mv
-			}})
-		}
-	}
-	if pskParrot && v13 {
-		for _, g := range []uint16{23, 24} {
-			g := g
-			if hs.ContainsU16(w.SupportedGroups, g) && !hs.ContainsU16(w.KeyShareGroups, g) {
-				sc = append(sc, scenario{kind: "psk-hrr", detail: fmt.Sprint(g), alpn: both, psk: true, exclude: true,
-					script: func(s *tls.VerifServerScript) { s.HRRGroup = tls.CurveID(g) },
-					cfg:    func(c *tls.Config) { c.CurvePreferences = []tls.CurveID{tls.CurveID(g)} }})
-				break
-			}
-		}
-	}
-	return sc
 }
 
 // sigOffered: signature_algorithms lists a scheme the leaf can sign with at that version (RFC 8446 4.2.3).
@@ -238,10 +182,181 @@ func serverPick(w *hs.WireHello, prefs []tls.CurveID) uint16 {
 	return cand[0]
 }
 
+func sameStrs(a, b []string) bool {
+	if len(a) != len(b) {
+		return false
+	}
+	for i := range a {
+		if a[i] != b[i] {
+			return false
+		}
+	}
+	return true
+}
+
+// scenarios derives the server configurations from the class's own wire hello. rot rotates which variant of a family
+// is marked `must` (part of the quick tier); rich classes (parrots, custom specs) get one must per family, derived
+// classes (randomized, fingerprinted) the version / share / one HRR / one ALPN runs.
+func scenarios(p *hs.PKI, cl class, w *hs.WireHello, specmin uint16, rot int, pres []class, preALPN map[string][]string) []scenario {
+	var sc []scenario
+	rich := cl.kind == "parrot" || cl.kind == "custom"
+	v13 := offers13(w)
+	both := []string{"h2", "http/1.1"}
+	adv := advertised(w, specmin)
+	for _, v := range adv {
+		v := v
+		sc = append(sc, scenario{kind: "version" + versName[v], detail: "max" + versName[v], alpn: both, must: true, cfg: func(c *tls.Config) { c.MaxVersion = v }})
+	}
+	if v13 {
+		var offered13 []uint16
+		for _, s := range real13 {
+			if hs.ContainsU16(w.CipherSuites, s) {
+				offered13 = append(offered13, s)
+			}
+		}
+		var hrrGroups []uint16
+		for _, g := range serverGroups {
+			g := g
+			if !hs.ContainsU16(w.SupportedGroups, g) {
+				continue
+			}
+			idx := -1
+			for i, s := range w.KeyShareGroups {
+				if s == g {
+					idx = i
+				}
+			}
+			if idx < 0 {
+				if g == 4588 {
+					sc = append(sc, scenario{kind: "hrr-hybrid", detail: "4588", alpn: both, exclude: true, must: true,
+						script: func(s *tls.VerifServerScript) { s.HRRGroup = tls.CurveID(g) },
+						cfg:    func(c *tls.Config) { c.CurvePreferences = []tls.CurveID{tls.CurveID(g)} }})
+				} else {
+					hrrGroups = append(hrrGroups, g)
+				}
+				continue
+			}
+			first := true
+			for i, s := range w.KeyShareGroups {
+				if !hs.IsGREASE(s) && i < idx {
+					first = false
+				}
+			}
+			kind := "second-share"
+			if first {
+				kind = "first-share"
+			}
+			sc = append(sc, scenario{kind: kind, detail: fmt.Sprint(g), alpn: both, must: true, cfg: func(c *tls.Config) { c.CurvePreferences = []tls.CurveID{tls.CurveID(g)} }})
+		}
+		// HelloRetryRequest for each group without a share x each offered TLS 1.3 suite (the HRR and the ServerHello carry it)
+		for si, s := range offered13 {
+			for gi, g := range hrrGroups {
+				s, g := s, g
+				must := gi == (rot+si)%len(hrrGroups) && (rich || si == rot%len(offered13))
+				sc = append(sc, scenario{kind: "hrr", detail: fmt.Sprintf("%d/0x%04x", g, s), alpn: both, must: must,
+					script: func(sc *tls.VerifServerScript) { sc.HRRGroup = tls.CurveID(g); sc.Suite = s },
+					cfg:    func(c *tls.Config) { c.CurvePreferences = []tls.CurveID{tls.CurveID(g)} }})
+			}
+		}
+		for _, s := range offered13 {
+			s := s
+			sc = append(sc, scenario{kind: "suite13", detail: fmt.Sprintf("0x%04x", s), alpn: both, script: func(sc *tls.VerifServerScript) { sc.Suite = s }})
+		}
+		for _, a := range w.CertCompressionAlgs {
+			a := a
+			if a >= 1 && a <= 3 {
+				sc = append(sc, scenario{kind: "certcomp", detail: fmt.Sprint(a), alpn: both, script: func(sc *tls.VerifServerScript) { sc.CertCompression = a }})
+			}
+		}
+	}
+	// each offered implemented legacy suite alone, at each advertised version it is valid at; one per (version, family) is must
+	sv, _ := legacySuites()
+	for _, v := range adv {
+		if v == tls.VersionTLS13 {
+			continue
+		}
+		fam := map[string][]uint16{}
+		for _, id := range w.CipherSuites {
+			if vs, ok := sv[id]; ok && hs.ContainsU16(vs, v) {
+				fam[suiteClass(id)] = append(fam[suiteClass(id)], id)
+			}
+		}
+		for _, f := range []string{"aead", "cbc", "rc4"} {
+			for i, id := range fam[f] {
+				v, id := v, id
+				sc = append(sc, scenario{kind: "suite" + versName[v], detail: fmt.Sprintf("0x%04x-%s", id, f), alpn: both, must: rich && i == rot%len(fam[f]),
+					cfg: func(c *tls.Config) {
+						c.MaxVersion = v
+						c.CipherSuites = []uint16{id}
+					}})
+			}
+		}
+	}
+	// ALPN: the server picks each protocol of the WIRE list alone (and none), under different client Configs
+	type ccv struct {
+		name string
+		f    func(*tls.Config)
+		pre  *class
+	}
+	variants := []ccv{{name: "cfg-default"}}
+	if len(w.ALPN) > 0 {
+		variants = append(variants,
+			ccv{name: "cfg-preset-disjoint", f: func(c *tls.Config) { c.NextProtos = []string{"verif-preset/1", "verif-preset/2"} }},
+			ccv{name: "cfg-preset-overlap", f: func(c *tls.Config) { c.NextProtos = []string{w.ALPN[len(w.ALPN)-1], "verif-preset/1"} }})
+		for i := range pres {
+			if a := preALPN[pres[i].name]; len(a) > 0 && !sameStrs(a, w.ALPN) && pres[i].name != cl.name {
+				variants = append(variants, ccv{name: "cfg-shared-after-" + pres[i].name, pre: &pres[i]})
+				break
+			}
+		}
+	}
+	for vi, cv := range variants {
+		picks := make([][]string, 0, len(w.ALPN)+1)
+		for _, a := range w.ALPN {
+			picks = append(picks, []string{a})
+		}
+		picks = append(picks, nil)
+		for pi, a := range picks {
+			cv, a := cv, a
+			must := len(w.ALPN) > 0 && pi == (rot+vi)%len(w.ALPN) && (rich || vi == 1) && cv.name != "cfg-preset-overlap"
+			sc = append(sc, scenario{kind: "alpn", detail: cv.name + "/" + strings.Join(a, ","), alpn: a, ccfg: cv.f, pre: cv.pre, must: must})
+		}
+	}
+	ed := ed25519Leaf(p)
+	for _, ct := range []struct {
+		name string
+		cert tls.Certificate
+	}{{"cert-ecdsa", p.ECDSA}, {"cert-rsa", p.RSA}, {"cert-ed25519", ed}} {
+		ct := ct
+		for _, mv := range []uint16{tls.VersionTLS13, tls.VersionTLS12} {
+			mv := mv
+			if !hs.ContainsU16(adv, mv) || !sigOffered(w, ct.name, mv) {
+				continue // not an offered choice
+			}
+			sc = append(sc, scenario{kind: ct.name, detail: "max" + versName[mv], alpn: both, cfg: func(c *tls.Config) {
+				c.Certificates = []tls.Certificate{ct.cert}
+				c.MaxVersion = mv
+			}})
+		}
+	}
+	if cl.kind == "parrot" && strings.Contains(cl.name, "PSK") && v13 {
+		for _, g := range []uint16{23, 24} {
+			g := g
+			if hs.ContainsU16(w.SupportedGroups, g) && !hs.ContainsU16(w.KeyShareGroups, g) {
+				sc = append(sc, scenario{kind: "psk-hrr", detail: fmt.Sprint(g), alpn: both, psk: true, exclude: true, must: true,
+					script: func(s *tls.VerifServerScript) { s.HRRGroup = tls.CurveID(g) },
+					cfg:    func(c *tls.Config) { c.CurvePreferences = []tls.CurveID{tls.CurveID(g)} }})
+				break
+			}
+		}
+	}
+	return sc
+}
+
 type outcome struct {
 	cl   class
 	sc   scenario
-	res  *hs.Result
+	res  *connResult
 	scfg *tls.Config
 }
 
@@ -283,14 +398,29 @@ func specMin(cl class) uint16 {
 	return 0
 }
 
-func runOne(p *hs.PKI, cl class, sc scenario, cache tls.ClientSessionCache) *outcome {
+func specOf(cl class) *tls.ClientHelloSpec {
+	if cl.mk != nil {
+		return cl.mk()
+	}
+	return nil
+}
+
+func runOne(p *hs.PKI, cl class, sc scenario) *outcome {
 	scfg := p.ServerConfig(sc.alpn...)
 	if sc.cfg != nil {
 		sc.cfg(scfg)
 	}
 	ccfg := p.ClientConfig()
+	if sc.ccfg != nil {
+		sc.ccfg(ccfg)
+	}
+	if sc.pre != nil {
+		// an earlier connection of another parrot uses the very same *Config (a caller reusing one Config for its dials)
+		runConn(hs.Opts{ID: sc.pre.id, Spec: specOf(*sc.pre), ClientCfg: ccfg, ServerCfg: p.ServerConfig("h2", "http/1.1")})
+	}
 	if sc.psk {
 		// a first full handshake against an ordinary server stores a ticket; the second hello carries pre_shared_key
+		cache := tls.NewLRUClientSessionCache(8)
 		scfg0 := p.ServerConfig(sc.alpn...)
 		scfg0.SessionTicketsDisabled = false
 		key := [32]byte{1, 2, 3}
@@ -298,12 +428,7 @@ func runOne(p *hs.PKI, cl class, sc scenario, cache tls.ClientSessionCache) *out
 		scfg.SessionTicketsDisabled = false
 		scfg.SetSessionTicketKeys([][32]byte{key})
 		ccfg.ClientSessionCache = cache
-		var sp *tls.ClientHelloSpec
-		if cl.mk != nil {
-			sp = cl.mk()
-		}
-		first := hs.Run(hs.Opts{ID: cl.id, Spec: sp, ClientCfg: ccfg, ServerCfg: scfg0})
-		_ = first
+		hs.Run(hs.Opts{ID: cl.id, Spec: specOf(cl), ClientCfg: ccfg, ServerCfg: scfg0})
 		ccfg = p.ClientConfig()
 		ccfg.ClientSessionCache = cache
 	}
@@ -311,11 +436,7 @@ func runOne(p *hs.PKI, cl class, sc scenario, cache tls.ClientSessionCache) *out
 	if sc.script != nil {
 		sc.script(script)
 	}
-	var sp *tls.ClientHelloSpec
-	if cl.mk != nil {
-		sp = cl.mk()
-	}
-	r := hs.Run(hs.Opts{ID: cl.id, Spec: sp, ClientCfg: ccfg, ServerCfg: scfg, Script: script})
+	r := runConn(hs.Opts{ID: cl.id, Spec: specOf(cl), ClientCfg: ccfg, ServerCfg: scfg, Script: script})
 	return &outcome{cl: cl, sc: sc, res: r, scfg: scfg}
 }
 
@@ -332,17 +453,16 @@ func tailOf(random []byte) int {
 }
 
 // flightTerm: the flight a compliant server with this configuration sends for wire hello w (reconstructed from the
-// configuration and what the server reports having used); ok=false when the server rejected the offer.
+// configuration and what the server reports having used); answered=false when the server rejected the offer itself.
 func flightTerm(o *outcome) (term string, answered bool, hrrGroup uint16) {
 	r, w, tr := o.res, o.res.Wire, o.res.Trace
-	// the server answered the hello if it sent a handshake message through the scripted path, or - a HelloRetryRequest
-	// issued inside the library's processClientHello is not traced - the client aborted on its own (no alert from the server)
+	// the server answered the hello if the client received a ServerHello / HelloRetryRequest, or aborted on its own
 	clientAborted := r.ClientErr != nil && r.AlertFromServer < 0 && !strings.HasPrefix(errStr(r.ClientErr), "remote error")
-	if len(tr.Sent) == 0 && !clientAborted {
+	if !r.ServerHelloSeen && len(tr.Sent) == 0 && !clientAborted {
 		return "", false, 0
 	}
 	alpn, _ := hs.NegotiatedALPN(o.sc.alpn, w.ALPN)
-	is13 := tr.Version == tls.VersionTLS13 || tr.SentHRR || (tr.Version == 0 && offers13(w) && o.scfg.MaxVersion != tls.VersionTLS12)
+	is13 := tr.Version == tls.VersionTLS13 || tr.SentHRR || (tr.Version == 0 && offers13(w) && (o.scfg.MaxVersion == 0 || o.scfg.MaxVersion == tls.VersionTLS13))
 	if is13 {
 		suite := tr.Suite
 		if suite == 0 {
@@ -354,6 +474,14 @@ func flightTerm(o *outcome) (term string, answered bool, hrrGroup uint16) {
 					suite = s
 					break
 				}
+			}
+		}
+		if o.res.Trace.SentHRR && o.sc.kind == "hrr" {
+			// the scripted suite (an offered TLS 1.3 suite) is in both the HRR and the ServerHello
+			var s16 uint16
+			fmt.Sscanf(o.sc.detail[strings.Index(o.sc.detail, "/")+1:], "0x%04x", &s16)
+			if s16 != 0 {
+				suite = s16
 			}
 		}
 		group := serverPick(w, o.scfg.CurvePreferences)
@@ -380,9 +508,9 @@ func flightTerm(o *outcome) (term string, answered bool, hrrGroup uint16) {
 	return fmt.Sprintf("(mkFlight None %s [] None %s true)", sh, skx), true, 0
 }
 
-func customSpec(shares []tls.CurveID, groups []tls.CurveID) func() *tls.ClientHelloSpec {
+func customSpec(shares []tls.CurveID, groups []tls.CurveID, versMin uint16) func() *tls.ClientHelloSpec {
 	return func() *tls.ClientHelloSpec {
-		sp, _ := tls.UTLSIdToSpec(tls.HelloFirefox_120)
+		sp, _ := tls.UTLSIdToSpec(tls.HelloFirefox_99)
 		for _, e := range sp.Extensions {
 			if ks, ok := e.(*tls.KeyShareExtension); ok {
 				ks.KeyShares = nil
@@ -393,6 +521,9 @@ func customSpec(shares []tls.CurveID, groups []tls.CurveID) func() *tls.ClientHe
 			if sc, ok := e.(*tls.SupportedCurvesExtension); ok {
 				sc.Curves = append([]tls.CurveID(nil), groups...)
 			}
+		}
+		if versMin != 0 {
+			sp.TLSVersMin = versMin
 		}
 		return &sp
 	}
@@ -430,6 +561,7 @@ func run(c *vh.Ctx) {
 	for _, pr := range hs.Parrots() {
 		classes = append(classes, class{name: pr.Name, kind: "parrot", id: pr.ID})
 	}
+	parrots := append([]class(nil), classes...)
 	nrand := 200
 	if quick {
 		nrand = 10
@@ -439,10 +571,8 @@ func run(c *vh.Ctx) {
 	}
 	base := len(classes)
 	for i := 0; i < base; i++ {
-		if quick && (i+int(c.Seed))%5 != 0 {
-			continue
-		}
-		if !quick && classes[i].kind == "randomized" && i%4 != 0 {
+		// fingerprinted copies: of every predefined parrot; of the randomized ones a rotating part
+		if classes[i].kind == "randomized" && (i+int(c.Seed))%4 != 0 {
 			continue
 		}
 		if fc, ok := fingerprinted(p, classes[i]); ok {
@@ -451,35 +581,53 @@ func run(c *vh.Ctx) {
 	}
 	all := []tls.CurveID{tls.X25519MLKEM768, tls.X25519, tls.CurveP256, tls.CurveP384, tls.CurveP521}
 	classes = append(classes,
-		class{name: "custom-five-shares", kind: "custom", id: tls.HelloCustom, mk: customSpec([]tls.CurveID{tls.CurveP256, tls.X25519MLKEM768, tls.X25519, tls.CurveP384, tls.CurveP521}, all)},
-		class{name: "custom-mlkem-only", kind: "custom", id: tls.HelloCustom, mk: customSpec([]tls.CurveID{tls.X25519MLKEM768}, all)},
-		class{name: "custom-p384-only-groups", kind: "custom", id: tls.HelloCustom, mk: customSpec([]tls.CurveID{tls.CurveP384}, []tls.CurveID{tls.CurveP384, tls.CurveP521})})
+		class{name: "custom-five-shares", kind: "custom", id: tls.HelloCustom, mk: customSpec([]tls.CurveID{tls.CurveP256, tls.X25519MLKEM768, tls.X25519, tls.CurveP384, tls.CurveP521}, all, 0)},
+		class{name: "custom-mlkem-only", kind: "custom", id: tls.HelloCustom, mk: customSpec([]tls.CurveID{tls.X25519MLKEM768}, all, 0)},
+		class{name: "custom-p384-only-groups", kind: "custom", id: tls.HelloCustom, mk: customSpec([]tls.CurveID{tls.CurveP384}, []tls.CurveID{tls.CurveP384, tls.CurveP521}, 0)})
 
-	// ---- jobs ----
-	type job struct {
-		cl class
-		sc scenario
-	}
-	var jobs []job
+	// ---- probes: the class's own wire hello ----
 	probes := map[string]*hs.Result{}
-	for ci, cl := range classes {
-		var sp *tls.ClientHelloSpec
-		if cl.mk != nil {
-			sp = cl.mk()
-		}
-		pr := hs.Run(hs.Opts{ID: cl.id, Spec: sp, ClientCfg: p.ClientConfig(), ServerCfg: p.ServerConfig("h2", "http/1.1")})
+	alpnOf := map[string][]string{}
+	for _, cl := range classes {
+		pr := hs.Run(hs.Opts{ID: cl.id, Spec: specOf(cl), ClientCfg: p.ClientConfig(), ServerCfg: p.ServerConfig("h2", "http/1.1")})
 		if pr.BuildErr != nil || pr.Wire == nil {
 			c.Count("build-error")
 			continue
 		}
 		probes[cl.name] = pr
-		scs := scenarios(p, pr.Wire, cl.kind == "parrot" && strings.Contains(cl.name, "PSK"))
+		alpnOf[cl.name] = pr.Wire.ALPN
+	}
+	// predecessors for the shared-Config runs: parrots with pairwise different ALPN lists
+	var pres []class
+	seenALPN := map[string]bool{}
+	for _, cl := range parrots {
+		k := strings.Join(alpnOf[cl.name], ",")
+		if k != "" && !seenALPN[k] {
+			seenALPN[k] = true
+			pres = append(pres, cl)
+		}
+	}
+	// rotate so that different classes meet different predecessors
+	type job struct {
+		cl class
+		sc scenario
+	}
+	var jobs []job
+	for ci, cl := range classes {
+		pr := probes[cl.name]
+		if pr == nil {
+			continue
+		}
+		rp := append(append([]class(nil), pres[(ci+int(c.Seed))%len(pres):]...), pres[:(ci+int(c.Seed))%len(pres)]...)
+		scs := scenarios(p, cl, pr.Wire, specMin(cl), ci+int(c.Seed), rp, alpnOf)
+		rich := cl.kind == "parrot" || cl.kind == "custom"
 		for si, sc := range scs {
-			if quick {
-				// every class meets every kind; within a kind the variants rotate with the seed, except the group choices
-				// of the predefined parrots and the excluded classes, which always run
-				keep := sc.exclude || ((sc.kind == "first-share" || sc.kind == "second-share" || sc.kind == "hrr") && cl.kind != "randomized" && cl.kind != "fingerprinted")
-				if !keep && (ci+si+int(c.Seed))%4 != 0 {
+			if quick && !sc.must {
+				k := 6
+				if !rich {
+					k = 14
+				}
+				if (ci*7+si+int(c.Seed))%k != 0 {
 					continue
 				}
 			}
@@ -495,7 +643,7 @@ func run(c *vh.Ctx) {
 		go func(i int, j job) {
 			defer wg.Done()
 			defer func() { <-sem }()
-			out[i] = runOne(p, j.cl, j.sc, tls.NewLRUClientSessionCache(8))
+			out[i] = runOne(p, j.cl, j.sc)
 		}(i, j)
 	}
 	wg.Wait()
@@ -511,11 +659,22 @@ func run(c *vh.Ctx) {
 	}
 
 	// ---- per handshake ----
+	failed := map[string]bool{}
+	failOnce := func(key, what string, input, got, want any) {
+		if !failed[key] {
+			failed[key] = true
+			c.Fail(key, what, input, got, want)
+		}
+	}
+	writeSeen := map[string]bool{}
 	for _, o := range out {
 		r := o.res
 		key := o.sc.kind + "/" + o.cl.name
 		if r.BuildErr != nil || r.Wire == nil {
 			c.Count("build-error")
+			if debug {
+				fmt.Printf("BUILD-ERROR %-34s %-13s %-10s %v\n", o.cl.name, o.sc.kind, o.sc.detail, r.BuildErr)
+			}
 			continue
 		}
 		fl, answered, hrrGroup := flightTerm(o)
@@ -528,34 +687,58 @@ func run(c *vh.Ctx) {
 			c.Count("psk-not-offered")
 			continue
 		}
-		completed := r.ClientErr == nil && r.AppData
+		completed := r.ClientErr == nil
 		input := map[string]any{"class": o.cl.name, "kind": o.sc.kind, "server_choice": o.sc.detail, "server_alpn": o.sc.alpn,
-			"wire_versions": r.Wire.SupportedVersions, "wire_groups": r.Wire.SupportedGroups, "wire_key_shares": r.Wire.KeyShareGroups,
-			"wire_psk_identities": r.Wire.PSKIdentities}
+			"wire_versions": r.Wire.SupportedVersions, "wire_legacy_version": r.Wire.LegacyVersion, "wire_groups": r.Wire.SupportedGroups,
+			"wire_key_shares": r.Wire.KeyShareGroups, "wire_alpn": r.Wire.ALPN, "wire_psk_identities": r.Wire.PSKIdentities}
 		if !answered {
 			// the server rejected the offer (no common suite / signature algorithm / group): allowed by the property
 			c.Count("server-declined")
 			if debug {
-				fmt.Printf("DECLINED %-34s %-13s %-10s serr=%q\n", o.cl.name, o.sc.kind, o.sc.detail, errStr(r.ServerErr))
+				fmt.Printf("DECLINED %-34s %-13s %-10s serr=%q cerr=%q\n", o.cl.name, o.sc.kind, o.sc.detail, errStr(r.ServerErr), errStr(r.ClientErr))
 			}
 			continue
 		}
 		if !completed {
-			c.Fail(key, "the server chose only values this ClientHello offers and utls implements, and the client did not complete the handshake / the application data echo",
-				input, map[string]any{"client_error": errStr(r.ClientErr), "server_error": errStr(r.ServerErr), "app_data": r.AppData,
+			failOnce(key, "the server chose only values this ClientHello offers and utls implements, and the client did not complete the handshake",
+				input, map[string]any{"client_error": errStr(r.ClientErr), "server_error": errStr(r.ServerErr),
 					"alert_from_client": r.AlertFromClient, "alert_from_server": r.AlertFromServer, "hellos": len(r.Hellos)},
 				"handshake completes and application data round-trips in both directions")
+		} else {
+			// application data in both directions, with several write sizes
+			st := r.ClientState
+			cls := "tls13"
+			if st.Version != tls.VersionTLS13 {
+				cls = suiteClass(st.CipherSuite)
+			}
+			input["negotiated_version"], input["negotiated_suite"], input["suite_family"] = st.Version, st.CipherSuite, cls
+			for _, wo := range r.Writes {
+				if wo.N != wo.Size || wo.Err != "" {
+					failOnce("app-write/"+o.cl.name, "UConn.Write of application data did not report (len(b), nil)", input, wo, map[string]any{"n": wo.Size, "err": ""})
+				}
+				wk := fmt.Sprintf("%d/%s/%d", st.Version, cls, wo.Size)
+				if !writeSeen[wk] || wo.N != wo.Size || wo.Err != "" {
+					writeSeen[wk] = true
+					c.Case("write-"+cls, fmt.Sprintf("(CWrite %d %s %d %d %s)", st.Version, vh.Bool(cls == "cbc"), wo.Size, wo.N, vh.Bool(wo.Err == "")),
+						fmt.Sprintf("write/%s/%d", wk, wo.N), st.Version <= tls.VersionTLS11, map[string]any{"version": st.Version, "family": cls, "write": wo})
+				}
+			}
+			if !r.EchoOK {
+				failOnce("app-echo/"+o.cl.name, "application data did not round-trip after a completed handshake", input,
+					map[string]any{"writes": r.Writes, "echo_error": r.EchoErr, "server_error": errStr(r.ServerErr)}, "the server's echo equals the bytes written")
+			}
+			c.Count(fmt.Sprintf("appdata-%s-%s", versName[st.Version], cls))
 		}
 		ctor := "CRun"
 		if o.sc.exclude {
 			ctor = "CRunX"
 		}
-		c.Case(o.sc.kind+"-"+o.cl.kind, fmt.Sprintf("(%s %s %s %s %d %s %s %s)", ctor, vh.Bool(fixed), hs.ViewTerm(r), shapeTerm(r.KeyShareKeys), specMin(o.cl),
-			hs.WireTerm(r.Wire), fl, hs.ObsTerm(r)), fmt.Sprintf("%s/%s/%s", o.sc.kind, o.cl.name, o.sc.detail),
+		c.Case(o.sc.kind+"-"+o.cl.kind, fmt.Sprintf("(%s %s %s %s %d %s %s %s)", ctor, vh.Bool(fixed), hs.ViewTerm(r.Result), shapeTerm(r.KeyShareKeys), specMin(o.cl),
+			hs.WireTerm(r.Wire), fl, hs.ObsTerm(r.Result)), fmt.Sprintf("%s/%s/%s", o.sc.kind, o.cl.name, o.sc.detail),
 			o.sc.kind != "version13" && o.sc.kind != "first-share",
 			map[string]any{"class": o.cl.name, "kind": o.sc.kind, "choice": o.sc.detail, "completed": completed, "client_error": errStr(r.ClientErr)})
 		if debug {
-			fmt.Printf("%-34s %-13s %-10s completed=%-5v alert=%-3d cerr=%q serr=%q\n", o.cl.name, o.sc.kind, o.sc.detail, completed, hs.ClientAlert(r), errStr(r.ClientErr), errStr(r.ServerErr))
+			fmt.Printf("%-34s %-13s %-34s completed=%-5v echo=%-5v alert=%-3d cerr=%q serr=%q\n", o.cl.name, o.sc.kind, o.sc.detail, completed, r.EchoOK, hs.ClientAlert(r.Result), errStr(r.ClientErr), errStr(r.ServerErr))
 		}
 	}
 	if debug {
